@@ -131,6 +131,22 @@ CLAIMS["C20"] = dict(
     technique="string-shape abstract interpretation with regex transfer functions + validated-return dominance + de-dup pattern check on the CFG",
     ref="3/C20",
 )
+CLAIMS["C15"] = dict(
+    text="An injection-style taint analysis over the generator's own emit code, which is where the position x payload matrix is decided: "
+    "every f-string template that is written as a code line or code block is lexed (a small Python lexer over its constant text) to "
+    "classify each hole as CODE / STRING / DOCSTRING / COMMENT; hole values are traced backwards through local definitions, record "
+    "unpacking and an inter-procedural parameter-taint fixpoint to free spec text (descriptions, summaries, titles, defaults, examples, "
+    "enum values, property and parameter names, tags, discriminator property/values, media types). A tainted value must pass the "
+    "sanitizer of its context: a complete-literal producer (json.dumps/repr/!r) or an identifier/type producer in CODE, a literal "
+    "producer in STRING (values between quotes must be *known* identifier-like otherwise), backslash+triple-quote escaping in "
+    "DOCSTRING (helpers' escapes are read from their bodies), removal of every line boundary in COMMENT. Alternative definitions "
+    "intersect, chained re-definitions accumulate. DocumentationBlock fields are discharged only by central escaping in "
+    "render_docstring that covers all content lines. Emitted code must not be re-split with str.splitlines(). Decides that no "
+    "un-escaped flow exists in today's templates; it does not enumerate payloads, and evaluated-literal equality is argued via "
+    "json.dumps's contract.",
+    technique="context-sensitive taint analysis: template lexing for hole contexts + backward def-use origin tracing + inter-procedural parameter taint + per-context sanitizer obligations",
+    ref="3/C15",
+)
 
 NOT_APPLICABLE = {}
 
